@@ -65,6 +65,19 @@ def counted_patterns(lang, locale=None):
     return out, skipped
 
 
+def inherited_under_extended_keys(lang, locale):
+    """phrases/patterns the LANGUAGE lists under a canonical key that the regional locale's overlay extends as well: a
+    locale keeps what it inherits (lists are concatenated by the overlay, not replaced)"""
+    over = C.language_info(lang).get("locale_specific", {}).get(locale, {})
+    keys_f, keys_c = set(over.get("relative-type", {})), set(over.get("relative-type-regex", {}))
+    base_f = [(w, c) for w, c in fixed_phrases(lang) if c in keys_f]
+    loc_f = dict(fixed_phrases(lang, locale))
+    base_c = [(pre, suf, c) for pre, suf, c in counted_patterns(lang)[0] if c in keys_c]
+    loc_c = {(pre, suf) for pre, suf, _ in counted_patterns(lang, locale)[0]}
+    # (a phrase that the merged vocabulary lists under two meanings is not in fixed_phrases(lang, locale): skipped)
+    return [(w, c) for w, c in base_f if loc_f.get(w) == c], [(pre, suf, c) for pre, suf, c in base_c if (pre, suf) in loc_c]
+
+
 def _eq(a, b):
     if a is None or b is None:
         return a is None and b is None
@@ -170,6 +183,18 @@ def tasks(tier, seed):
                 for w, canon in fixed_phrases(lang, loc):
                     if w not in base_fx:
                         add_fixed(lang, loc, w, canon)
+    # regional locales whose overlay extends relative keys: what they inherit under those keys must still parse
+    ext = [(lang, loc) for lang in order for loc in locd.get(lang, [])
+           if set(C.language_info(lang).get("locale_specific", {}).get(loc, {})) & {"relative-type", "relative-type-regex"}]
+    for lang, loc in ext:
+        fxs, cps = inherited_under_extended_keys(lang, loc)
+        if quick:
+            fxs = [fxs[(seed + 3 * j) % len(fxs)] for j in range(min(3, len(fxs)))] if fxs else []
+            cps = [cps[(seed + 3 * j) % len(cps)] for j in range(min(2, len(cps)))] if cps else []
+        for w, canon in fxs:
+            add_fixed(lang, loc, w, canon)
+        for pre, suf, canon in cps:
+            add_counted(lang, loc, pre, suf, canon, 2)
     if quick:
         import unicodedata
         for lang in order:
